@@ -3,6 +3,7 @@ CONSTANTS
   Regions = {1, 2, 3}
   Handles = {1, 2, 3}
   MaxAbs = 1
+  WithShrink = TRUE
   WithStreams = TRUE
   WithNested = TRUE
   GenDepth = 4
